@@ -181,6 +181,10 @@ func FetchType(typ reflect.Type, typMap map[string]reflect.Type) {
 		return
 	}
 
+	// a struct type already collected is not walked again (self-referential types would never end)
+	if _, ok := typMap[typ.Name()]; ok {
+		return
+	}
 	typMap[typ.Name()] = typ
 	for i := 0; i < typ.NumField(); i++ {
 		FetchType(typ.Field(i).Type, typMap)
